@@ -23,11 +23,6 @@ def dropFinalNl : List Seg → List Seg
   | [.text t] => [.text (if t.getLast? == some '\n' then t.dropLast else t)]
   | s :: rest => s :: dropFinalNl rest
 
-def hasCr : Seg → Bool
-  | .text t => t.contains '\r'
-  | .tag _ _ _ i => i.contains '\r'
-  | .raw _ _ b _ _ => b.contains '\r'
-
 /-- a variable tag of a skeleton holds a string literal `'V…'`: its value is the text between the quotes -/
 def valueOf (i : Str) : Str := i.filter (· != '\'')
 
@@ -41,9 +36,10 @@ def handle : List Sx → Sx
   | [cfg, nl, .list segs] =>
     match JinjaV.Wire.Lex.decCfg cfg, nl.toStr?, Sx.mapM? JinjaV.Wire.Trim.decSeg segs with
     | some cfg, some nl, some segs =>
-      if !cfg.Valid || segs.any hasCr || !(nl == "\n" || nl == "\r\n" || nl == "\r") then Sx.oom else
+      if !cfg.Valid || !(nl == "\n" || nl == "\r\n" || nl == "\r") then Sx.oom else
       let segs := mergeTexts segs
-      let eff := if cfg.keepTrailingNl then segs else dropFinalNl segs
+      let norm := segs.map normSeg
+      let eff := if cfg.keepTrailingNl then norm else dropFinalNl norm
       .list [.atom "ok", .str (String.ofList (unparse cfg segs)),
              .str (String.ofList (renderNl nl.toList (trimSpec cfg eff .nothing true)))]
     | _, _, _ => Sx.bad
